@@ -242,9 +242,14 @@ def compare_with_pivot(cmp_node: ast.AST, is_pivot, negated: bool = False) -> Op
     """Normalise `pivot OP other` (pivot recognised by predicate is_pivot on an AST side):
     returns (op, other) meaning  pivot <op> other.  Handles `not (...)`."""
     n = cmp_node
-    while isinstance(n, ast.UnaryOp) and isinstance(n.op, ast.Not):
-        negated = not negated
-        n = n.operand
+    while True:
+        if isinstance(n, ast.UnaryOp) and isinstance(n.op, ast.Not):
+            negated = not negated
+            n = n.operand
+        elif isinstance(n, ast.Call) and isinstance(n.func, ast.Name) and n.func.id == "bool" and len(n.args) == 1 and not n.keywords:
+            n = n.args[0]       # bool(<test>) has the truth value of <test>
+        else:
+            break
     if not isinstance(n, ast.Compare):
         return None
     oc = orient_compare(n)
